@@ -20,7 +20,7 @@ def scanBody (s : Sc) (b : Byte) : Sc :=
   if isspace b = true ∧ s.quote = 0 then { s with out := s.out ++ [0], prev := 0 }
   else if b = s.quote then { s with out := s.out ++ [0], prev := 0, quote := 0 }
   else if s.prev = 0 then
-    if b = 39 ∨ b = 34 then { s with out := s.out ++ [0], prev := 0, quote := b }
+    if s.quote = 0 ∧ (b = 39 ∨ b = 34) then { s with out := s.out ++ [0], prev := 0, quote := b }
     else { s with out := s.out ++ [b], prev := b, argv := s.argv.set s.argc (some s.out.length),
                   argc := s.argc + 1, brk := decide (s.argc + 1 ≥ argvLen) }
   else { s with out := s.out ++ [b], prev := b }
@@ -102,7 +102,7 @@ theorem step_corr (t : Tok) (sc : Sc) (b : Byte) (rest : List Byte) (i : Nat)
     · rw [if_neg c2, if_neg c2]
       by_cases c3 : sc.prev = 0
       · rw [if_pos c3, if_pos c3]
-        by_cases c4 : b = 39 ∨ b = 34
+        by_cases c4 : sc.quote = 0 ∧ (b = 39 ∨ b = 34)
         · rw [if_pos c4, if_pos c4]
           exact ⟨corr_next _ 0 rest i _ _ _ _ sc.out h.len hset rfl h.argc h.argv, hb⟩
         · rw [if_neg c4, if_neg c4]
